@@ -2,6 +2,7 @@ import Driver.Sent
 import Driver.Bin
 import Driver.Tk
 import Driver.Train
+import Driver.Dict
 /-! `vdriver`: reads one case per line on stdin, writes one response line per case. -/
 open V V.Drv
 
@@ -11,6 +12,9 @@ def handle (line : String) : String :=
   | "H" :: cfg :: preds :: ops :: _ => runH cfg preds ops
   | "F" :: cfg :: m :: pt :: h :: _ => runF cfg m pt h
   | "E" :: h :: _ => runE h
+  | "RD" :: r => runDict ("RD" :: r)
+  | "WJ" :: r => runDict ("WJ" :: r)
+  | "WP" :: r => runDict ("WP" :: r)
   | "TR" :: cfg :: _solver :: dict :: tagdict :: corpus :: _eval :: trace :: _ => runTR cfg dict tagdict corpus trace
   | "TK" :: m :: ws :: h :: cl :: _ => runTK m ws h cl
   | "N" :: h :: _ => runN h
